@@ -51,6 +51,7 @@ inductive POp
   | setcap (r : Ref) (cap : Sym)
   | setro (r : Ref) (b : Bool)
   | eqother (r : Ref)
+  | setclass (ok : Bool)
   /-- raising one of the module's error classes directly: both are `RuntimeError`s (no manager involved) -/
   | excls
 
@@ -118,6 +119,7 @@ def parseOp (j : Json) : Except String POp := do
   | "setro" => pure (.setro (← parseRef j "ref") (← getBool j "ro"))
   | "eqother" => pure (.eqother (← parseRef j "ref"))
   | "excls" => pure .excls
+  | "setclass" => pure (.setclass (← getBool j "ok"))
   | _ => throw s!"unknown op kind {k}"
 
 /-- harness-side variables: `kept[id]` -/
@@ -176,6 +178,7 @@ def toOp (m : Mgr) (k : Kept) : POp → Option Op
   | .setro r b => (resolveObj m k r).map (fun a => Op.setReadOnly a b)
   | .eqother r => (resolveObj m k r).map Op.sysEqOther
   | .excls => none
+  | .setclass ok => some (.setSystemClass ok)
 
 def optSymJ : Option Sym → Json
   | none => .null
